@@ -146,7 +146,7 @@ let rec p_entries (l : string list) = match l with
   | t :: i :: p :: rest -> ((n_of_string t, n_of_string i), bytes_of_hex p) :: p_entries rest
   | _ -> failwith "bad entries"
 
-type xop = Op of op | Disk | Resident  (* K: print the directory; H: resident cache entries *)
+type xop = Op of op | Disk | Resident | Dump  (* K: directory; H: resident cache entries; W: dump of all records *)
 
 let p_op (s : string) : xop = match toks s with
   | ["V"; t; n] -> Op (OW (OVote (n_of_string t, n_of_string n)))
@@ -166,6 +166,7 @@ let p_op (s : string) : xop = match toks s with
   | "X" :: rest -> Op (ORestart (p_cfg rest))
   | ["K"] -> Disk
   | ["H"] -> Resident
+  | ["W"] -> Dump
   | _ -> failwith ("bad op: " ^ s)
 
 let split_on (sep : char) (s : string) : string list =
@@ -182,6 +183,26 @@ let run_xops (y0 : sys option) (first : string list) (ops : xop list) : string =
          | Some yy ->
            (match xo with
             | Disk -> out := str_disk yy.y_disk :: !out
+            | Dump ->
+              (* RefDump: closed chunks then the open chunk, each file scanned from the start *)
+              let k = yy.y_core in
+              let ids = List.map (fun c -> c.cl_chunk.ck_id) k.k_closed @ [k.k_open.ck_id] in
+              let items = List.concat_map (fun id ->
+                  let data = (match disk_get id yy.y_disk with Some f -> f.f_data | None -> []) in
+                  let ((recs, _), e) = scan_file data in
+                  let rec go i off l = match l with
+                    | [] -> []
+                    | (r, sz) :: tl ->
+                      Printf.sprintf "%s:%d:%d+%s:%s" (string_of_n id) i off (string_of_n sz)
+                        (String.concat "_" (String.split_on_char ' ' (str_record r))) :: go (i + 1) (off + int_of_n sz) tl in
+                  let base = go 0 0 recs in
+                  let n = List.length recs in
+                  base @ (match e with
+                      | SEnd -> []
+                      | SEof -> [Printf.sprintf "%s:%d:err:UnexpectedEof" (string_of_n id) n]
+                      | SInvalid -> [Printf.sprintf "%s:%d:err:InvalidData" (string_of_n id) n]
+                      | SFuel -> [Printf.sprintf "%s:%d:err:Fuel" (string_of_n id) n])) ids in
+              out := (String.concat " " ("dump" :: items)) :: !out
             | Resident ->
               out := ("resident " ^ String.concat "," (List.map (fun (id, p) ->
                   Printf.sprintf "%s:%d" (str_pair id) (List.length p)) yy.y_core.k_sm.m_cache.ch_entries)) :: !out
@@ -228,7 +249,7 @@ let do_spec (rest : string) : string =
     let s = ref spec0 in
     let outs = List.map (fun xo ->
         match xo with
-        | Disk | Resident -> "-"
+        | Disk | Resident | Dump -> "-"
         | Op (OW w) ->
           (match w with
            | OUpdateState _ -> "unsupported"
@@ -436,7 +457,7 @@ let replay_all (z0 : sys2) (evs : (int * string) list) : string =
            end
            else if starts_with e "c call " then begin
              match p_op (after e "c call ") with
-             | Disk | Resident -> fail "unsupported op in trace"
+             | Disk | Resident | Dump -> fail "unsupported op in trace"
              | Op o ->
                List.concat_map (fun (z, _) ->
                    match zstep z (ZCall o) with
